@@ -16,8 +16,8 @@ LEVEL = 'proof'
 # taints that, placed before the forwarding call, oblige discovery not to
 # advertise the callee's parameters reachable through that star
 MUST_HIDE = {
-    'kwargs': {'rebind', 'augassign', 'mutate_method', 'mutate_item', 'pass_on', 'nonlocal', 'inline'},
-    'args': {'rebind', 'augassign', 'nonlocal'},
+    'kwargs': {'rebind', 'augassign', 'mutate_method', 'mutate_item', 'pass_on', 'nonlocal', 'inline', 'shadow'},
+    'args': {'rebind', 'augassign', 'nonlocal', 'shadow'},
 }
 
 
@@ -188,7 +188,7 @@ def check_program(p, rep, idx):
                     break
             rep.coverage['executed_calls'] = rep.coverage.get('executed_calls', 0) + nexec
             # (2) tainted star: the callee's parameters behind it are not advertised
-            if p.taint and p.taint[2] == 'before' and p.taint[0] in MUST_HIDE[p.taint[1]]:
+            if p.taint and p.taint[2] in ('before', 'comp_iter') and p.taint[0] in MUST_HIDE[p.taint[1]]:
                 star = p.taint[1]
                 outer_names = {name_of(q[0]) for q in p.outer} | {'self', 'fparam'}
                 for q in sig.parameters.values():
